@@ -22,7 +22,6 @@ import (
 	"context"
 	"fmt"
 	"net"
-	"strings"
 	"syscall"
 	"testing"
 	"time"
@@ -84,6 +83,12 @@ func starved(e *envT) (bool, string) {
 		}
 		last = fmt.Sprintf("canary read took %v (err %v)", d.Round(time.Millisecond), err)
 	}
+	// an unattacked server on the same machine must be answering promptly right now
+	if ctl := controlEnv(); ctl != nil {
+		if d, err := ctl.canaryRead(); err != nil || d >= controlBound {
+			return false, ""
+		}
+	}
 	return true, last
 }
 
@@ -99,16 +104,18 @@ func recovered(e *envT) bool {
 }
 
 func variantA() (bool, string, error) {
-	e, err := newEnv()
+	e, err := newEnv("big")
 	if err != nil {
 		return false, "", err
 	}
 	defer e.close()
-	e.srv.AddVariable("big", strings.Repeat("x", 60000))
 	// a fixed small receive buffer: otherwise the kernel grows the client's
 	// receive buffer up to tcp_rmem[2] (32 MB here) before the server's write blocks
-	a, err := dialSmallWindow(e.addr, e.srv.URL, 4096)
+	a, err := dialSmallWindow(e.addr, e.url, 4096)
 	if err != nil {
+		return false, "", err
+	}
+	if err := a.openSession(e.url); err != nil {
 		return false, "", err
 	}
 	var rv []*ua.ReadValueID
@@ -121,7 +128,7 @@ func variantA() (bool, string, error) {
 	}
 	// 40 x 1.8 MB of responses, none of them read
 	for i := 0; i < 40; i++ {
-		if _, err := a.sendBody(buildBody(id, nil, uint32(i+2), rest)); err != nil {
+		if _, err := a.sendBody(buildBody(id, a.token, uint32(i+2), rest)); err != nil {
 			break
 		}
 	}
@@ -135,16 +142,16 @@ func variantA() (bool, string, error) {
 }
 
 func variantB() (bool, string, error) {
-	e, err := newEnv()
+	e, err := newEnv("")
 	if err != nil {
 		return false, "", err
 	}
 	defer e.close()
-	a, err := dialSmallWindow(e.addr, e.srv.URL, 2048)
+	a, err := dialSmallWindow(e.addr, e.url, 2048)
 	if err != nil {
 		return false, "", err
 	}
-	if err := a.openSession(e.srv.URL); err != nil {
+	if err := a.openSession(e.url); err != nil {
 		return false, "", err
 	}
 	v, err := a.call(&ua.CreateSubscriptionRequest{RequestedPublishingInterval: 10, RequestedLifetimeCount: 100000, RequestedMaxKeepAliveCount: 1, PublishingEnabled: true}, a.token, 5*time.Second)
